@@ -251,6 +251,11 @@ func (h *Handler) dialPeers(upstream *Upstream, repl *caddy.Replacer, down *laye
 				h.FromConn(downConn, false)
 				_, err = h.WriteTo(up)
 			}
+			if err != nil {
+				// connected, but the header could not be sent: this connection
+				// is not going to be used
+				_ = up.Close()
+			}
 		}
 
 		if err != nil {
